@@ -157,6 +157,10 @@ fn apply_model(m: &mut Vec<bool>, op: &Op) -> Option<bool> {
     None
 }
 
+fn rmw_ordering(k: usize) -> Ordering {
+    [Ordering::Relaxed, Ordering::Acquire, Ordering::Release, Ordering::AcqRel, Ordering::SeqCst][k % 5]
+}
+
 /// Applies the operation to the real object; returns (words, len, returned value).
 fn apply_real(s: &St, op: &Op) -> (Vec<usize>, usize, Option<bool>) {
     let mut b = real(s);
@@ -180,20 +184,22 @@ fn apply_real(s: &St, op: &Op) -> (Vec<usize>, usize, Option<bool>) {
             bb.set(i, v);
             b = bb.into();
         }
+        // set and swap are single read-modify-write operations: every memory ordering is legal for them, and
+        // which one is used depends (deterministically) on the state and the index
         Op::ViaAtomicSet(i, v) => {
             let a: AtomicBitVec = b.into();
-            a.set(i, v, o);
+            a.set(i, v, rmw_ordering(i + s.len));
             b = a.into();
         }
         Op::ViaAtomicSwap(i, v) => {
             let a: AtomicBitVec = b.into();
-            ret = Some(a.swap(i, v, o));
+            ret = Some(a.swap(i, v, rmw_ordering(i + s.len + usize::from(v))));
             b = a.into();
         }
         Op::ViaAtomicBoxSet(i, v) => {
             let bb: BitVec<Box<[usize]>> = b.into();
             let a: AtomicBitVec<Box<[AtomicUsize]>> = bb.into();
-            a.set(i, v, o);
+            a.set(i, v, rmw_ordering(i + 2 * s.len));
             let bb: BitVec<Box<[usize]>> = a.into();
             b = bb.into();
         }
